@@ -70,11 +70,12 @@ Proof. exact hoisted_panics. Qed.
 Print Assumptions C07_tally_hoisted_division_panics.
 
 (* gov end blocker (model M_Gov of x/gov, see Prop_C15): after ANY history of submit / deposit / vote / end-block
-   operations in which no passed proposal spends from the governance module account, closing proposals (refund or
-   burn of every deposit, tally, message execution on a cache branch) never fails.  Without that guard it does fail:
-   known finding C15-2, which this check reproduces on the real FinalizeBlock on every run. *)
+   operations in which no passed proposal spends from the governance module account and no stored proposal record is
+   made undecodable, closing proposals (refund or burn of every deposit, tally, message execution on a cache branch)
+   never fails.  Without the first guard it does fail: known finding C15-2, which this check reproduces on the real
+   FinalizeBlock on every run; without the second: known finding C15-3 (the failUnsupportedProposal branches). *)
 Theorem C07_gov_endblock_total : forall P kf b c ops s ev t stk,
-  Forall op_no_govsend ops ->
+  Forall op_no_govsend ops -> Forall op_no_corrupt ops ->
   run P kf (init b c) ops = (s, ev) ->
   end_block P kf t stk s <> None.
 Proof. exact end_block_never_fails. Qed.
@@ -220,3 +221,11 @@ Print Assumptions C07_gov_halting_calls.
 Theorem C07_gov_handler_panic_recovered : gen_gov_safe_execute_recovers = true.
 Proof. reflexivity. Qed.
 Print Assumptions C07_gov_handler_panic_recovered.
+
+(* the same reachability, continued into the hand-written functions of x/crosschain/types the end blocker reaches:
+   the one panic site there is Oracle.GetOracle's bech32 decoding of the record's own OracleAddress, which SetOracle
+   performs on every record before it stores it — a stored record cannot fail it *)
+Theorem C07_types_panic_sites_known :
+  gen_types_panic_sites = [("types.Oracle.GetOracle", "MustAccAddressFromBech32")]%string.
+Proof. reflexivity. Qed.
+Print Assumptions C07_types_panic_sites_known.
